@@ -5,7 +5,7 @@ From Coq Require Import ZArith Reals Floats Bool.
 From Flocq Require Import Core BinarySingleNaN PrimFloat.
 From Coquelicot Require Import Complex.
 From PB Require Import Proofs.TwoSumExact Model.Phase2 Proofs.Floor Proofs.DayFrac Proofs.DayFrac3 Proofs.PhaseAdd Proofs.PhaseMore
-  Proofs.DayFracTail Proofs.TwoProduct Proofs.PhaseMul Proofs.PhaseAbs Proofs.PhaseDiv Model.PhaseOrd Model.PhaseDivmod Proofs.PhaseArgmin Proofs.PhaseDivmodProofs Proofs.PhaseDivmodFloor Proofs.FmodSpec Proofs.FloorDivSpec Proofs.PhaseDivmodFinal Gen.GenPhase Proofs.PhaseGen Gen.GenPhaseOrd Proofs.PhaseOrdGen.
+  Proofs.DayFracTail Proofs.DayFracFold Proofs.TwoProduct Proofs.PhaseMul Proofs.PhaseAbs Proofs.PhaseDiv Model.PhaseOrd Model.PhaseDivmod Proofs.PhaseArgmin Proofs.PhaseDivmodProofs Proofs.PhaseDivmodFloor Proofs.FmodSpec Proofs.FloorDivSpec Proofs.PhaseDivmodFinal Gen.GenPhase Proofs.PhaseGen Gen.GenPhaseOrd Proofs.PhaseOrdGen.
 Open Scope R_scope.
 Notation fexp := (FLT_exp (-1074) 53).
 Notation rnd := (round radix2 fexp ZnearestE).
@@ -27,7 +27,7 @@ Theorem C07_construct : forall x y : PrimFloat.float, fin x -> fin y ->
   Rabs (R_of x) <= bpow radix2 53 -> Rabs (R_of y) <= bpow radix2 53 -> Rabs (R_of x + R_of y) <= bpow radix2 52 ->
   let '(d, g) := day_frac_gen x y None None in
   fin d /\ fin g /\ (exists k : Z, R_of d = IZR k) /\
-  Rabs (R_of d + R_of g - (R_of x + R_of y)) <= bpow radix2 (-53) /\ Rabs (R_of g) <= / 2 + bpow radix2 (-50).
+  Rabs (R_of d + R_of g - (R_of x + R_of y)) <= bpow radix2 (-53) /\ Rabs (R_of g) <= / 2.
 Proof. exact phase_construct_sound. Qed.
 
 (* Phase + Phase and Phase - Phase: within 2^-52 of the exact result, normalised, for counts up to 2^51 - 1 *)
@@ -38,7 +38,7 @@ Theorem C07_add : forall (i1 f1 i2 f2 : PrimFloat.float) (k1 k2 : Z),
   let '(d, f) := phase_add i1 f1 i2 f2 in
   fin d /\ fin f /\ (exists k : Z, R_of d = IZR k) /\
   Rabs (R_of d + R_of f - ((R_of i1 + R_of f1) + (R_of i2 + R_of f2))) <= bpow radix2 (-52) /\
-  Rabs (R_of f) <= / 2 + bpow radix2 (-50).
+  Rabs (R_of f) <= / 2.
 Proof. exact phase_add_sound. Qed.
 Theorem C07_sub : forall (i1 f1 i2 f2 : PrimFloat.float) (k1 k2 : Z),
   fin i1 -> fin f1 -> fin i2 -> fin f2 ->
@@ -47,13 +47,13 @@ Theorem C07_sub : forall (i1 f1 i2 f2 : PrimFloat.float) (k1 k2 : Z),
   let '(d, f) := phase_sub i1 f1 i2 f2 in
   fin d /\ fin f /\ (exists k : Z, R_of d = IZR k) /\
   Rabs (R_of d + R_of f - ((R_of i1 + R_of f1) - (R_of i2 + R_of f2))) <= bpow radix2 (-52) /\
-  Rabs (R_of f) <= / 2 + bpow radix2 (-50).
+  Rabs (R_of f) <= / 2.
 Proof. exact phase_sub_sound. Qed.
 Theorem C07_neg : forall i f : PrimFloat.float,
   fin i -> fin f -> Rabs (R_of i) <= bpow radix2 52 - 1 -> Rabs (R_of f) <= / 2 ->
   let '(d, g) := day_frac (PrimFloat.opp i) (PrimFloat.opp f) in
   fin d /\ fin g /\ (exists k : Z, R_of d = IZR k) /\
-  Rabs (R_of d + R_of g - (- (R_of i + R_of f))) <= bpow radix2 (-53) /\ Rabs (R_of g) <= / 2 + bpow radix2 (-50).
+  Rabs (R_of d + R_of g - (- (R_of i + R_of f))) <= bpow radix2 (-53) /\ Rabs (R_of g) <= / 2.
 Proof. exact phase_neg_sound. Qed.
 
 (* the __array_ufunc__ branches of the model ARE these functions (real phases) *)
@@ -82,7 +82,7 @@ Theorem C07_tail : forall s e : PrimFloat.float,
   fin s -> fin e -> Rabs (R_of s) <= bpow radix2 52 -> Rabs (R_of e) <= / 2 ->
   let '(d, f) := df_tail s e in
   fin d /\ fin f /\ (exists k : Z, R_of d = IZR k) /\
-  Rabs (R_of d + R_of f - (R_of s + R_of e)) <= bpow radix2 (-53) /\ Rabs (R_of f) <= / 2 + bpow radix2 (-50).
+  Rabs (R_of d + R_of f - (R_of s + R_of e)) <= bpow radix2 (-53) /\ Rabs (R_of f) <= / 2.
 Proof. exact df_tail_sound. Qed.
 (* Phase * dimensionless number: within 2^-52 cycles of the exact product, normalised, for |product| <= 2^52 - 2 (phase and
    factor zero or not absurdly small: no underflow inside the Dekker product) *)
@@ -94,7 +94,7 @@ Theorem C07_mul : forall i f fac : PrimFloat.float,
   Rabs (V * R_of fac) <= bpow radix2 52 - 2 ->
   let '(d, g) := day_frac_gen i f (Some fac) None in
   fin d /\ fin g /\ (exists k : Z, R_of d = IZR k) /\
-  Rabs (R_of d + R_of g - V * R_of fac) <= bpow radix2 (-52) /\ Rabs (R_of g) <= / 2 + bpow radix2 (-50).
+  Rabs (R_of d + R_of g - V * R_of fac) <= bpow radix2 (-52) /\ Rabs (R_of g) <= / 2.
 Proof. exact phase_mul_sound. Qed.
 Theorem C07_mul_branch : forall (a : ph) (fac : PrimFloat.float), p_imag a = false ->
   op_mul a (NReal fac) =
@@ -113,7 +113,7 @@ Theorem C07_div : forall i f dv : PrimFloat.float,
   let '(d, g) := day_frac_gen i f None (Some dv) in
   fin d /\ fin g /\ (exists k : Z, R_of d = IZR k) /\
   Rabs (R_of d + R_of g - V / R_of dv) <= bpow radix2 (-52) /\
-  Rabs (R_of g) <= / 2 + bpow radix2 (-50).
+  Rabs (R_of g) <= / 2.
 Proof. exact phase_div_sound. Qed.
 Theorem C07_div_branch : forall (a : ph) (dv : PrimFloat.float), p_imag a = false ->
   op_div a (NReal dv) =
@@ -126,7 +126,7 @@ Theorem C07_abs : forall i f : PrimFloat.float,
   (V = 0 \/ bpow radix2 (-60) <= Rabs V) ->
   let '(d, g) := day_frac_gen i f (Some (fsign (PrimFloat.add i f))) None in
   fin d /\ fin g /\ (exists k : Z, R_of d = IZR k) /\
-  Rabs (R_of d + R_of g - Rabs V) <= bpow radix2 (-52) /\ Rabs (R_of g) <= / 2 + bpow radix2 (-50).
+  Rabs (R_of d + R_of g - Rabs V) <= bpow radix2 (-52) /\ Rabs (R_of g) <= / 2.
 Proof. exact phase_abs_sound. Qed.
 Theorem C07_abs_branch : forall a : ph,
   op_abs a = let '(d, g) := day_frac_gen (p_int a) (p_frac a) (Some (fsign (PrimFloat.add (p_int a) (p_frac a)))) None in
@@ -148,7 +148,7 @@ Theorem C07_divmod_identity : forall (p : ph) (d q : PrimFloat.float) (rem : ph)
   (R_of q = 0 \/ bpow radix2 (-900) <= Rabs (R_of q)) -> Rabs (R_of q) <= bpow radix2 400 ->
   Rabs (R_of d * R_of q) <= IZR (2 ^ 51 - 3) ->
   p_imag rem = false /\ fin (p_int rem) /\ fin (p_frac rem) /\ (exists kr : Z, R_of (p_int rem) = IZR kr) /\
-  Rabs (R_of q * R_of d + V rem - V p) <= bpow radix2 (-51) /\ Rabs (R_of (p_frac rem)) <= / 2 + bpow radix2 (-50).
+  Rabs (R_of q * R_of d + V rem - V p) <= bpow radix2 (-51) /\ Rabs (R_of (p_frac rem)) <= / 2.
 Proof. exact divmod_identity. Qed.
 
 (* the FLOOR half.  numpy's float floor_divide is an external routine; its statement-by-statement model np_divmod (exact fmod computed
